@@ -255,6 +255,59 @@ def underscore_alias(ctx):
                           {"src": "_q*A", "params": params, "value": v, "meaning": expect * 2.0})
 
 
+def growth_law_traces(ctx, rng):
+    """a growth law that mentions t, used by the simulators that carry a volume: at every volume tick the law is evaluated at
+    the time the tick ends, so V(t_n) = V(t_{n-1}) * exp(g(t_n) * dt).  Nothing random happens (the only reaction has rate
+    0); Heaviside arguments stay away from 0 (integer grid, switch at a half-integer)."""
+    import math
+    import simcorr
+    from modelspec import build_model
+    from bioscrape.types import StateDependentVolume
+    laws = [("k*Heaviside(t - T_on) + r*t", lambda t, p: p["k"] * (1.0 if t > p["T_on"] else 0.0) + p["r"] * t),
+            ("r*t^2/(1 + t)", lambda t, p: p["r"] * t ** 2 / (1 + t)),
+            ("k*exp(-t/5) + 0.01*X", lambda t, p: p["k"] * math.exp(-t / 5) + 0.01 * 3),
+            ("k/4", lambda t, p: p["k"] / 4)]
+    T = np.arange(0, 13, 1.0)
+    for law, g in laws:
+        pv = {"k": rng.choice([0.2, 0.3]), "r": rng.choice([0.002, 0.004]), "T_on": 4.5, "zero": 0.0, "tau": 1.5}
+        spec = {"species": ["X", "Y"], "reactions": [{"reactants": ["X"], "products": [], "dreactants": [], "dproducts": ["Y"],
+                                                      "prop": {"type": "massaction", "k": "zero"}, "delay": {"type": "fixed", "delay": "tau"}}],
+                "params": pv, "ic": {"X": 3, "Y": 0}}
+        for kind in ("volume", "delayvolume"):
+            case = {"growth_law": law, "params": pv, "simulator": kind}
+            ctx.begin_case(case)
+            M = build_model(spec)
+            def factory(M_):
+                v = StateDependentVolume()
+                v.setup(1e9, 0.0, law, M_)
+                v.py_initialize(np.array(M_.get_species_array(), dtype=float), M_.get_parameter_values(), 0.0, 1.0)
+                return v
+            r = simcorr.run_real(M, kind, T, 11, 1.0, vol0=1.0, volume_factory=factory)
+            ctx.evaluated()
+            vol = np.array(r["volume"], dtype=float)
+            # the tick that ends at t_j multiplies the volume by exp(g(t_j) dt); a row may be written before or after the tick
+            # that ends at its own time (the reported volume is within one step of the law either way), so two alignments
+            # of the same product are accepted: prod_{j=1..n-1} and prod_{j=1..n}
+            fac = [math.exp(g(float(t), pv) * 1.0) for t in T]
+            lag1, lag0 = [1.0], [1.0]
+            for n_ in range(1, len(T)):
+                lag1.append(lag1[-1] * (fac[n_ - 1] if n_ >= 2 else 1.0))
+                lag0.append(lag0[-1] * fac[n_])
+            ok = False
+            for want in (lag1, lag0):
+                if len(vol) == len(want) and all(abs(vol[i] - want[i]) <= 1e-9 * want[i] for i in range(len(want))):
+                    ok = True
+            if not ok:
+                want = lag1
+                n = min(len(vol), len(want))
+                bad = [i for i in range(n) if abs(vol[i] - want[i]) > 1e-9 * want[i]]
+                i = bad[0] if bad else n - 1
+                ctx.violation("growth-law/trace/" + kind, "growth law %s in the %s simulator: volume %r at t=%g; with every tick reading t as the time "
+                              "it ends, the written law gives %r" % (law, kind, float(vol[i]), T[i], want[i]), dict(case, simulated=vol.tolist(), formula=want))
+                return
+            ctx.count("growth_law_traces")
+
+
 def run(ctx):
     warnings.filterwarnings("ignore")
     rng = ctx.rng
@@ -263,6 +316,7 @@ def run(ctx):
         one_expr(ctx, rng, rng.randint(1, 5))
     malformed(ctx, rng)
     underscore_alias(ctx)
+    growth_law_traces(ctx, rng)
 
 
 def replay(ctx, obj):
@@ -277,6 +331,6 @@ def describe(ctx):
             "generator's own tree evaluated in Python floats with volume reading 1 outside volume mode (1e-9); Lean: (a) the real "
             "Term tree dumped and evaluated by Term.eval (1e-12), (b) the source string through the Lean parser, translate and eval "
             "(1e-9) and Expr.eval; a malformed stream (unknown names, broken syntax) must be rejected by both; the leading-underscore "
-            "alias. Non-trivial = the expression takes different values at the 4 points; distinct by source text; the histogram counts "
+            "alias; growth laws that mention t, run through the volume and the delay+volume simulator on a model where nothing fires, against the recursion V(t_n) = V(t_{n-1}) exp(g(t_n) dt). Non-trivial = the expression takes different values at the 4 points; distinct by source text; the histogram counts "
             "operators and the share of constant expressions.")
     return rule, {}, False, ["sympy's parser and simplifier are trusted; their effect is sampled by cut (b)", "exp/log/pow values: libm vs numpy/std::pow within the stated tolerances"]
